@@ -1,5 +1,6 @@
 import DuneVerif.Proofs.C06Sched
 import DuneVerif.Proofs.C06System
+import DuneVerif.Proofs.C06Rank
 /-!
 # C06 — VariableSizeCommunicator delivers every item intact for any sizes / buffer size, and returns
 
@@ -296,5 +297,103 @@ example :
         [(0, .deliver), (1, .deliver), (1, .recvDone), (0, .sendDone), (0, .recvDone), (1, .sendDone), (0, .deliver),
          (0, .recvDone), (0, .sendDone)]).map fun ss => ss.map fun x => (x.state.final, x.state.acc))
       = some [(true, [⟨5, 2, [2, 2]⟩, ⟨7, 1, [1]⟩]), (true, [⟨0, 1, [4]⟩, ⟨1, 1, [4]⟩])] := by decide
+
+
+/-! ## the whole call on all ranks: size loop, data loop, counters, return
+
+`VarSys` (Model/C06, "rank level") is the state of one `forward`/`backward` with a variable-size handle on **all** ranks:
+per rank the program position (size loop / data loop / returned) and the two counters of the loop it is in
+(`size_to_send`,`size_to_recv` resp. `no_to_send`,`no_to_recv`), per link (directed neighbour relation, any number of
+them, self links included) the size-phase and the data-phase machine.  Ranks move at their own pace: a rank enters
+its data loop (`advance`) as soon as *its own* size counters are zero, while neighbours may still exchange sizes; a
+`sendDone`/`recvDone` is possible only for a rank that is in the corresponding loop with a non-zero counter
+(`if(no_to_send) no_to_send -= check…`), and decrements the counter iff the request's tracker is finished.  Size
+and data messages of a link share one tag, i.e. one FIFO (`sz.chan ++ dt.chan`).  A schedule is any list of
+`GAct`s; actions that are not enabled cannot be scheduled. -/
+
+theorem mem_links_get {γ δ : Type} {R : γ → δ → Prop} {ls : List γ} {xs : List δ} (h : Rel2 R ls xs) (x : δ) (hx : x ∈ xs) :
+    ∃ l, R l x := by
+  obtain ⟨i, hi, rfl⟩ := List.mem_iff_getElem.1 hx
+  have hi' : i < ls.length := by rw [h.1]; exact hi
+  exact ⟨ls[i], h.2 i ls[i] xs[i] (List.getElem?_eq_getElem hi') (List.getElem?_eq_getElem hi)⟩
+
+/-- **rank_level_variable_size.**  For any number `n` of ranks and any links between them (matching list lengths, every
+    index fits into the buffer), from the state in which every rank has entered `communicateSizes`:
+    1. every schedule is finite (explicit bound);
+    2. in every reachable state no size message can be matched with a data receive or vice versa
+       (`confusable = false` for every link), although both use the same tag;
+    3. in every reachable state the counters of every rank equal the number of its requests that are still open in the
+       loop the rank is in — so no counter is ever decremented below zero, and a loop is left exactly when all its
+       requests are closed;
+    4. a state in which nothing is enabled (a maximal execution) is final: **every rank has returned**, nothing of any
+       link is in flight or half done, and every link has made exactly the `expectedCalls` scatter calls — whatever
+       the schedule was. -/
+theorem rank_level_variable_size (B n : Nat) (hB : 0 < B) (specs : List (LinkSpec α)) (hv : ValidLinks B n specs)
+    (sched : List GAct) (g' : VarSys α) (he : varExec B specs (varInit B n specs) sched = some g') :
+    sched.length ≤ (specs.map fun l => 2 * (3 * (l.sendIdx.length + l.recvIdx.length) + 4)).sum + 2 * n ∧
+    (∀ x ∈ g'.links, x.confusable = false) ∧
+    (∀ p, p < n →
+      (g'.phase.getD p 3 = 0 → g'.toSend.getD p 0 = countSel (sizeSendOpen p) specs g'.links ∧
+                                g'.toRecv.getD p 0 = countSel (sizeRecvOpen p) specs g'.links) ∧
+      (g'.phase.getD p 3 = 1 → g'.toSend.getD p 0 = countSel (dataSendOpen p) specs g'.links ∧
+                                g'.toRecv.getD p 0 = countSel (dataRecvOpen p) specs g'.links)) ∧
+    ((∀ a, varStep B specs g' a = none) →
+      g'.final = true ∧
+      g'.links.map (fun x => x.dt.acc) = specs.map (fun l => expectedCalls l.h l.sendIdx l.recvIdx)) := by
+  obtain ⟨hI, hm⟩ := vexec_inv hB sched _ g' (varInit_inv B n hB specs hv) he
+  have hb := varInit_measure B n hB specs
+  refine ⟨by omega, ?_, fun p hp => ⟨hI.cnt0 p hp, hI.cnt1 p hp⟩, fun hstuck => ?_⟩
+  · intro x hx
+    obtain ⟨l, hl⟩ := mem_links_get hI.links x hx
+    exact linkInv_not_confusable hl
+  · obtain ⟨hph, hlk⟩ := vstuck_final hB hI hstuck
+    constructor
+    · simp only [VarSys.final, Bool.and_eq_true, List.all_eq_true]
+      constructor
+      · intro k hk
+        obtain ⟨p, hp, rfl⟩ := List.mem_iff_getElem.1 hk
+        have := hph p (by rw [← hI.lenP]; exact hp)
+        simp only [List.getD_eq_getElem?_getD, List.getElem?_eq_getElem hp, Option.getD_some] at this
+        simp [this]
+      · intro x hx
+        obtain ⟨i, hi, rfl⟩ := List.mem_iff_getElem.1 hx
+        have hi' : i < specs.length := by rw [hI.links.1]; exact hi
+        obtain ⟨h1, h2, _⟩ := hlk i specs[i] g'.links[i] (List.getElem?_eq_getElem hi') (List.getElem?_eq_getElem hi)
+        simp [h1, h2]
+    · apply List.ext_getElem?
+      intro i
+      rw [List.getElem?_map, List.getElem?_map]
+      cases hl : specs[i]? with
+      | none =>
+        have : g'.links[i]? = none := by
+          rw [List.getElem?_eq_none_iff] at hl ⊢
+          rw [← hI.links.1]; exact hl
+        simp [this]
+      | some l =>
+        obtain ⟨x, hx, _⟩ := hI.links.get hl
+        obtain ⟨_, _, h3⟩ := hlk i l x hl hx
+        simp [hx, h3, callsOf_eq_expected]
+
+/-- non-vacuity: two ranks, link 0 → 1 (sizes 2,0,1 with `B = 2`: two data rounds, two size rounds) and link 1 → 0; in this
+    complete schedule rank 0 enters its data loop and sends data while rank 1 is still receiving sizes -/
+example :
+    let specs : List (LinkSpec Nat) :=
+      [⟨0, 1, ⟨false, fun i => List.replicate i i⟩, [2, 0, 1], [5, 6, 7]⟩,
+       ⟨1, 0, ⟨false, fun i => List.replicate (i % 2) (10 + i)⟩, [3], [4]⟩]
+    ((varExec 2 specs (varInit 2 2 specs)
+        [.size 1 .deliver, .size 1 .sendDone, .size 1 .recvDone, .size 0 .deliver, .size 0 .sendDone, .size 0 .recvDone,
+         .size 0 .deliver, .size 0 .sendDone, .advance 0, .size 0 .recvDone, .advance 1, .data 0 .deliver,
+         .data 0 .sendDone, .data 0 .recvDone, .data 0 .deliver, .data 0 .recvDone, .data 0 .sendDone, .data 1 .deliver,
+         .data 1 .sendDone, .data 1 .recvDone, .ret 0, .ret 1]).map fun g => (g.final, g.links.map fun x => x.dt.acc))
+      = some (true, [[⟨5, 2, [2, 2]⟩, ⟨7, 1, [1]⟩], [⟨4, 1, [13]⟩]]) := by decide
+
+/-- the guards are real: rank 1 cannot leave its size loop while a size receive is open, and a rank in its size loop
+    cannot process data completions -/
+example :
+    let specs : List (LinkSpec Nat) :=
+      [⟨0, 1, ⟨false, fun i => List.replicate i i⟩, [2, 0, 1], [5, 6, 7]⟩]
+    (varStep 2 specs (varInit 2 2 specs) (.advance 1)).isNone = true ∧
+    (varStep 2 specs (varInit 2 2 specs) (.data 0 .sendDone)).isNone = true ∧
+    (varStep 2 specs (varInit 2 2 specs) (.ret 0)).isNone = true := by decide
 
 end DV.C06
